@@ -2,14 +2,15 @@
 """Writes seeded/<ID>/meta.json from the sub-agent's notes, my confirmation logs (.cache/confirm) and the check output."""
 import json,os,re,subprocess
 first_run={'C01':'caught','C02':'missed','C03':'missed','C04':'missed','C05':'missed','C06':'missed','C07':'missed','C08':'missed','C09':'caught','C10':'missed','C11':'caught','C12':'caught','C13':'missed','C14':'missed','C15':'missed','C16':'missed','C17':'caught (check built afterwards, without looking at the change)','C18':'caught','C19':'missed','C20':'caught'}
-for i in range(1,21):
-    pid=f'C{i:02d}'; d=f'/verif/seeded/{pid}'
+first_run.update({'C01-2':'missed','C02-2':'missed by C02 (caught by C13: stale-index-entry)','C03-2':'missed','C04-2':'missed','C05-2':'missed','C06-2':'missed by C06 (caught by C04)','C07-2':'missed','C08-2':'missed','C09-2':'missed','C10-2':'caught'})
+for name in sorted(os.listdir('/verif/seeded')):
+    pid=name; d=f'/verif/seeded/{pid}'
     if not os.path.exists(f'{d}/agent_meta.json'): continue
     a=json.load(open(f'{d}/agent_meta.json'))
     conf=open(f'/verif/.cache/confirm/{pid}.txt').read() if os.path.exists(f'/verif/.cache/confirm/{pid}.txt') else ''
     out=open(f'{d}/check_output.txt').read() if os.path.exists(f'{d}/check_output.txt') else ''
     sigs=re.findall(r'signature=(\S+)',out)
-    m=dict(property=pid,
+    m=dict(property=pid[:3], seed=pid,
       what_changed=a.get('what_changed'), why_it_breaks_the_property=a.get('why_it_breaks_the_property'), needs_to_manifest=a.get('needs_to_manifest'),
       demonstration=dict(file=os.path.basename(open(f'{d}/demo_path.txt').read().strip()), path_in_repo=open(f'{d}/demo_path.txt').read().strip(), cmd=a.get('demo_cmd')),
       written_by='fresh sub-agent given only the property text and a scratch worktree of /repo',
@@ -17,9 +18,10 @@ for i in range(1,21):
         script='tools/confirm_seeds.sh (scratch worktree /tmp/confirm-wt, removed afterwards): go build ./... ; demonstration with the change ; demonstration after git apply -R ; go test -vet=off -timeout 25m ./... with the change and without the demonstration file',
         result=[l for l in conf.splitlines() if l.startswith('demo with') or l.startswith('RESULT')],
         suite_failures_with_change=sorted(set(re.findall(r'--- FAIL: (\S+)',conf))),
-        check='tools/seedtest.sh seeded/%s/patch.diff %s quick (git -C /repo apply, ./run, git checkout -- .)'%(pid,pid)),
-      check_first_run=first_run[pid],
+        check='tools/seedtest.sh seeded/%s/patch.diff %s quick (git -C /repo apply, ./run, git checkout -- .)'%(pid,pid[:3])),
+      check_first_run=first_run.get(pid,'?'),
       check_now='caught' if 'VIOLATION' in out else 'NOT caught',
       violation_signatures=sorted(set(sigs)))
     json.dump(m,open(f'{d}/meta.json','w'),indent=1)
-    print(pid,m['check_now'],m['violation_signatures'][:2],m['what_i_ran']['result'])
+    try: print(pid,m['check_now'],m['violation_signatures'][:2],m['what_i_ran']['result'])
+    except BrokenPipeError: pass
